@@ -49,6 +49,7 @@ type Contract struct {
 	HasMod      bool              // a modifies clause is present (possibly "modifies nothing")
 	Allocs      bool              // the function may allocate objects visible to the caller
 	AllocT      []string          // ... of these kinds (struct short names, "map", "chan", "cell")
+	TempKinds   []string          // temporaries K1, K2: objects of these kinds are allocated but do not escape (assumed, listed in the evidence)
 	SpawnMod    []ast.Expr        // what goroutines started by this function may modify (default: nothing)
 	SpawnReq    []Clause          // spawn requires[label] e: must hold, in the spawning activation's state, at every go statement of the function
 	Observe     map[string]string // obligation-name suffix -> why a failure of it is outside the property (reported, not alarmed)
@@ -157,7 +158,7 @@ var declKeywords = map[string]bool{"func": true, "extern": true, "field": true, 
 	"ghost": true, "axiom": true, "monitor": true, "lemma": true, "devirtall": true}
 var clauseKeywords = map[string]bool{"prop": true, "params": true, "results": true, "recv": true, "requires": true, "ensures": true,
 	"modifies": true, "loop": true, "on": true, "instantiate": true, "strings": true, "inline": true, "mode": true, "decreases": true,
-	"safety": true, "invariant": true, "protects": true, "self": true, "vars": true, "assumes": true, "replay": true, "allocates": true, "opaque": true, "ghostlocal": true, "devirt": true, "dispatch": true, "spawn": true, "rely": true, "observation": true, "select": true}
+	"safety": true, "invariant": true, "protects": true, "self": true, "vars": true, "assumes": true, "replay": true, "allocates": true, "opaque": true, "ghostlocal": true, "devirt": true, "dispatch": true, "spawn": true, "temporaries": true, "rely": true, "observation": true, "select": true}
 
 // desugarSpec rewrites ==> and <==> (lowest precedence, right associative) into calls.
 func desugarSpec(s string) string {
@@ -711,6 +712,8 @@ func parseContractFile(path, pkgPath, pkgName string) (*ContractFile, error) {
 						cur.Inst[strings.TrimSpace(p[0])] = strings.TrimSpace(p[1])
 					}
 				}
+			case "temporaries":
+				cur.TempKinds = append(cur.TempKinds, fieldsComma(rest)...)
 			case "spawn":
 				if strings.HasPrefix(rest, "requires") {
 					c, err := mkClause(strings.TrimPrefix(rest, "requires"), rl.line)
